@@ -65,6 +65,13 @@ def headOf (s : State) : Op → String
   | .sf k => s!"n={(s.sps k).handles.length}"
   | .sm k k2 =>
       if k = k2 then s!"n={(s.sps k).handles.length}" else s!"n={(s.sps k).handles.length + (s.sps k2).handles.length}"
+  | .bd i _ => if (s.futs i).existed && (s.futs i).bnd.isNone then "ok" else "skip"
+  | .bi i =>
+      match (s.futs i).bnd with
+      | none => "skip"
+      | some true => s!"1 n={(settle s i (.value (100 + i))).tmp.handles.length}"
+      | some false => "0 n=0"
+  | .bx i => if (s.futs i).bnd.isSome then "ok" else "skip"
   | .rm k i kd =>
       if (s.futs i).existed then
         s!"{boolStr (!(s.futs i).claimed)} n={(s.sps k).handles.length + (resolve s i kd).tmp.handles.length}"
@@ -145,6 +152,12 @@ def parseOp (ws : List String) : Option Op :=
       match natOf k nSp, natOf k2 nSp with
       | some k, some k2 => some (.sm k k2)
       | _, _ => none
+  | ["bd", i, n] =>
+      match natOf i maxId, natOf n 1000 with
+      | some i, some n => if [4, 32, 48, 64, 200].contains n then some (.bd i n) else none
+      | _, _ => none
+  | ["bi", i] => (natOf i maxId).map .bi
+  | ["bx", i] => (natOf i maxId).map .bx
   | ["rm", k, i, kd] =>
       match natOf k nSp, natOf i maxId, kd.toList with
       | some k, some i, [c] => (parseKind c).map (Op.rm k i)
